@@ -294,6 +294,13 @@ def pick_values(rng, shape, big):
 
 def force_sets_events(col, rng, big, natom=3, nd=2):
     """returns the list of (codec, status) file outcomes."""
+    try:
+        return _force_sets_events(col, rng, big, natom, nd)
+    except Exception as e:  # the WRITER (or this grammar walk on its output) failed
+        return [("FORCE_SETS" + ("/big" if big else ""), "write-raised:%s: %s" % (type(e).__name__, e))]
+
+
+def _force_sets_events(col, rng, big, natom=3, nd=2):
     from phonopy.file_IO import get_FORCE_SETS_lines, parse_FORCE_SETS_from_strings
     from harness.c16_world import dyadic
     out = []
@@ -351,6 +358,14 @@ def force_sets_events(col, rng, big, natom=3, nd=2):
 
 
 def force_constants_events(col, rng, big, compact, tmpdir):
+    try:
+        return _force_constants_events(col, rng, big, compact, tmpdir)
+    except Exception as e:
+        return [("FORCE_CONSTANTS/" + ("compact" if compact else "full") + ("/big" if big else ""),
+                 "write-raised:%s: %s" % (type(e).__name__, e))]
+
+
+def _force_constants_events(col, rng, big, compact, tmpdir):
     import os
     from phonopy.file_IO import get_FORCE_CONSTANTS_lines, parse_FORCE_CONSTANTS
     n2 = 3
